@@ -638,6 +638,13 @@ func a2cCallers(c *Ctx, p *Program, rel *ssa.Function, par *ssa.Parameter, pool 
 		}
 		obj := args[idx]
 		der := derivedFrom(caller, obj)
+		// the released value was parked in a local slice/array: everything stored into that
+		// container is released here as well
+		for _, o2 := range parkedAliases(caller, obj) {
+			for k := range derivedFrom(caller, o2) {
+				der[k] = true
+			}
+		}
 		cons := FnName(caller) + ":" + rel.Name() + "(" + pool + ")@" + fmt.Sprint(callOrdinal(caller, e.Site))
 		bad := ""
 		if _, isDefer := e.Site.(*ssa.Defer); isDefer {
@@ -1012,4 +1019,66 @@ func escapesOf(p *Program, fn *ssa.Function, obj ssa.Value, der map[ssa.Value]bo
 		}
 	}
 	return ""
+}
+
+// parkedAliases: if v is loaded from an element of a container (slice/array) local to fn, return the
+// values stored into elements of that container.
+func parkedAliases(fn *ssa.Function, v ssa.Value) []ssa.Value {
+	ld, ok := v.(*ssa.UnOp)
+	if !ok || ld.Op != token.MUL {
+		return nil
+	}
+	ia, ok := ld.X.(*ssa.IndexAddr)
+	if !ok {
+		return nil
+	}
+	root := sliceRoot(ia.X)
+	if root == nil {
+		return nil
+	}
+	var out []ssa.Value
+	for _, b := range fn.Blocks {
+		for _, in := range b.Instrs {
+			st, ok := in.(*ssa.Store)
+			if !ok {
+				continue
+			}
+			ia2, ok := st.Addr.(*ssa.IndexAddr)
+			if !ok || sliceRoot(ia2.X) != root {
+				continue
+			}
+			out = append(out, st.Val)
+		}
+	}
+	return out
+}
+
+func sliceRoot(v ssa.Value) ssa.Value {
+	for i := 0; i < 6; i++ {
+		switch x := v.(type) {
+		case *ssa.MakeSlice:
+			return x
+		case *ssa.Alloc:
+			return x
+		case *ssa.Slice:
+			v = x.X
+		case *ssa.Phi:
+			for _, e := range x.Edges {
+				if r := sliceRoot(e); r != nil {
+					return r
+				}
+			}
+			return nil
+		case *ssa.UnOp:
+			if x.Op == token.MUL {
+				if a, ok := x.X.(*ssa.Alloc); ok {
+					return a
+				}
+			}
+			return nil
+		default:
+			return nil
+		}
+	}
+	return nil
 }
